@@ -51,7 +51,7 @@ def confirm(pid, m):
     w, o = srcdir(pid, m)
     key = "%s-%s" % (pid, m)
     d = load(key)
-    sh("git checkout -- . && rm -f tests/seed_demo.rs", cwd=w)
+    sh("git checkout -- . && git clean -fdq -- crates src && rm -f tests/seed_demo.rs", cwd=w)
     rc, out = sh("git apply --check %s/patch.diff && git apply %s/patch.diff" % (o, o), cwd=w)
     if rc != 0:
         d["confirm"] = {"ok": False, "why": "patch does not apply: " + out[-500:]}; save(key, d); print(d["confirm"]); return
@@ -64,7 +64,7 @@ def confirm(pid, m):
     shutil.copy(o + "/demo.rs", w + "/tests/seed_demo.rs")
     rc1, out1 = sh("cargo test --offline --test seed_demo 2>&1", cwd=w)
     demo_fails_with = rc1 != 0 and "could not compile" not in out1
-    sh("git checkout -- .", cwd=w)
+    sh("git checkout -- . && git clean -fdq -- crates src", cwd=w)
     rc2, out2 = sh("cargo test --offline --test seed_demo 2>&1", cwd=w)
     demo_passes_without = rc2 == 0
     os.remove(w + "/tests/seed_demo.rs")
@@ -118,7 +118,7 @@ def run(pid, m, checks):
             for c, r in ex.map(one, checks[1:]):
                 results[c] = r
     finally:
-        sh("git -C /repo checkout -- .")
+        sh("git -C /repo checkout -- . && git -C /repo clean -fdq -- crates src")
     d["checks"] = results
     save(key, d)
 
